@@ -30,6 +30,7 @@ class Registry:
         self.con_ast, self.exp_ast = {}, {}
         self.pending = []          # declaration lines not yet sent
         self.z3ids = {}            # z3 ast id -> con id   (keeps the z3 expr alive)
+        self.aliases = {}          # canonical con id -> all con ids with the same z3 AST
         self._keep = []
         self.var_index = {uni.real_names[n]: i for i, n in enumerate(uni.names)}
         self.lines_uni = ["uni %s %s" % (",".join(str(uni.bits[n]) for n in uni.names),
@@ -65,6 +66,7 @@ class Registry:
         z = claripy.backends.z3.convert(c)
         self._keep.append(z)
         canon = self.z3ids.setdefault(z.get_id(), i)
+        self.aliases.setdefault(canon, []).append(i)
         self.pending.append("con %d %s %d %s %s %x %d" % (i, self.vars_of(c), 1 if c is claripy.false() else 0, conc, triv, m, canon))
         return i
 
@@ -176,7 +178,7 @@ class Recorder:
                     for a in solver.assertions():
                         if z3.is_implies(a):
                             byname[str(a.arg(0))] = rec.reg.z3ids.get(a.arg(1).get_id())
-                    core = [byname[str(c)] for c in cs if byname.get(str(c)) is not None]
+                    core = sorted(byname[str(c)] for c in cs if byname.get(str(c)) is not None)
                 except z3.Z3Exception:
                     pass
                 rec.events.append("C:U:%s" % (",".join(map(str, core)) or "-"))
@@ -328,6 +330,8 @@ def render_out(reg, d, out):
                          "ClaripyValueError": "value", "NotImplementedError": "notimpl"}.get(out[1], out[1])
     v = out[1]
     if op in ("add", "simplify", "unsat_core"):
+        if not all(isinstance(c, claripy.ast.Base) for c in v):
+            return "c:nested"
         return "c:[%s]" % ",".join(str(reg.con(c)) for c in v)
     if op in ("satisfiable", "solution", "is_true", "is_false"):
         return "b:%d" % (1 if v else 0)
@@ -455,7 +459,11 @@ def run_recorded(uni, reg, cls, cfg, hist, faults=None, judge=True):
                     ref.add(d["s"], [uni.parse(c) for c in d["cs"]])
                 elif d["op"] == "branch" and out[0] == "ok":
                     ref.branch(d["s"])
-                if judge and d["op"] != "unsat_core":
+                if judge and d["op"] == "unsat_core":
+                    j = L.judge_core(uni, ref, solvers[d["s"]], d, out)
+                    if j:
+                        fails.append((k, j[0], j[1]))
+                elif judge:
                     jout = out
                     if d["op"] in ("add", "simplify") and out[0] == "ok":
                         jout = ("ok", None)
